@@ -158,14 +158,27 @@ theorem decode_len (op : Op) (c : COp) (h : decode op = some c) : c.len ≤ 32 :
   cases op <;> simp only [decode] at h <;> split at h <;> simp_all [COp.len] <;>
     (unfold validate at *; grind)
 
-/-- the canonical 4-byte mask with `n` leading ones -/
-def prefixByte (k : Nat) : UInt8 := UInt8.ofNat (256 - 2 ^ (8 - min k 8))
-def cidrMask (n : Nat) : Bytes :=
-  [prefixByte n, prefixByte (n - 8), prefixByte (n - 16), prefixByte (n - 24)]
 
 /-- every genuine IPv4 CIDR (4-byte address, canonical 4-byte mask of length 0..32) is accepted
     with its prefix length -/
 theorem validate_cidr : ∀ n ∈ List.range 33, maskSize (cidrMask n) = (n, 32) := by decide
+
+/-- **validation is sound**: whatever `Add`/`Remove` accept is a genuine IPv4 CIDR — a 4-byte address
+    with the canonical 4-byte mask of some length `n ≤ 32` — and is read with exactly that length -/
+theorem validate_sound (ip mask : Bytes) (h : validate ip mask ≠ .invalid) :
+    ip.length = 4 ∧ ∃ n, n ≤ 32 ∧ mask = cidrMask n ∧
+      validate ip mask = (if n = 0 then .zero else .pfx (be32 ip) n) := by
+  unfold validate maskSize at h ⊢
+  cases hs : simpleMaskLength mask with
+  | none => simp [hs] at h
+  | some n =>
+    simp only [hs] at h ⊢
+    obtain ⟨hm, hn⟩ := simpleMaskLength_sound mask n hs
+    by_cases hc : mask.length * 8 ≠ 32 ∨ n > 32 ∨ ip.length ≠ 4
+    · simp [hc] at h
+    · have hl : mask.length = 4 := by omega
+      refine ⟨by omega, n, by omega, by rw [cidrMask_eq, ← hl]; exact hm, ?_⟩
+      simp [hc]
 
 /-- a 16-byte (IPv4-in-IPv6) address is looked up exactly like its 4-byte form -/
 theorem contains_16 (s : St) (a b c d : UInt8) :
